@@ -308,6 +308,12 @@ def run_property(pid, tier, only=None, jobs=None, write_evidence=True, cube_filt
         cube_rows.append(row)
         continue
       total['obligations'] += 1
+      if st == 'pre_unsat' and gen > 0:
+        # re-run after excluding a known finding: nothing of the cube is left outside the finding
+        row['status'] = 'covered-by-known-finding'
+        total['known_cubes'] = total.get('known_cubes', 0) + 1
+        cube_rows.append(row)
+        continue
       if st == 'confirmed':
         total['discharged'] += 1
       elif st == 'inconclusive':
@@ -350,6 +356,7 @@ def run_property(pid, tier, only=None, jobs=None, write_evidence=True, cube_filt
       obligations=total['obligations'],
       discharged=total['discharged'],
       inconclusive=total['inconclusive'],
+      cubes_entirely_inside_known_findings=total.get('known_cubes', 0),
       evaluations=max(total['paths'] + sum(r.get('queries', 0) for r in direct_rows), 0),
       distinct_nontrivial=len(notes_all) + sum(1 for r in direct_rows if r['verdict'] == 'holds'),
       rule=getattr(hmod, 'RULE', 'evaluations = CrossHair path iterations (each decided by z3) plus direct '
